@@ -336,5 +336,6 @@ def run(chk, facts, tier):
     same_residuals(chk, facts)
     from rules import c14_canerr
     c14_canerr.check(chk, facts)
+    c14_canerr.folds_guarded(chk, facts)
     from rules import c02_ops
     c02_ops.check_tpe(chk, facts)
